@@ -1835,6 +1835,29 @@ class Item:
         self.rewrite(s0, bs, "{ let vx_keys = vx_map_keys(%s);/*@pre*/\n    let mut vx_i: usize = 0;\n    while vx_i < vx_keys.len()\n    /*@loop*/\n    {\n      let %s = vx_map_index(%s, vx_keys[vx_i]);/*@body*/\n      let vx_e = " % (r_, p, r_), "R3-try-for-each-values")
         self.rewrite(be, close + 1, ";\n      match vx_e { Ok(_) => {} Err(vx_err) => { return Err(vx_err); } }/*@tail*/\n      vx_i = vx_i + 1;\n    }\n    Ok(()) }", "R3-try-for-each-values")
 
+    def r3_try_for_each_expr(self, fn, k):
+        """the k-th expression `RECV.iter().try_for_each(|P| BODY)` of fn (RECV a slice / Vec expression, BODY: Result<(), E> without
+        `return` / `?`), in ANY expression position  ==>  the definition of Iterator::try_for_each over a slice: BODY on every element in
+        order, the FIRST error is the result, Ok(()) when there is none:
+        { let vx_s = RECV; let mut vx_r = Ok(()); let mut vx_i = 0; while vx_i < vx_s.len() { let P = &vx_s[vx_i]; let vx_e = BODY;
+          if vx_e.is_err() { vx_r = vx_e; break; } vx_i += 1; } vx_r }        (RECV and BODY stay in place; names get the suffix k for k > 1)"""
+        k0, _, bo, end, _ = self.fn_span(fn)
+        hits = list(re.finditer(r"\.\s*iter\s*\(\s*\)\s*\.\s*try_for_each\s*\(", self.m[bo:end]))
+        if len(hits) < k:
+            raise Undecided("LOST-ANCHOR: R3 try-for-each-expr #%d in fn %s of %s" % (k, fn, self.where()))
+        h = hits[k - 1]
+        par = bo + h.end() - 1
+        p, bs, be, close = self._closure_after(par)
+        if re.search(r"\breturn\b|\?", self.m[bs:be]):
+            raise Undecided("R3 try-for-each-expr: the closure body leaves early (return / ?)")
+        s0 = self._chain_start(bo + h.start())
+        sfx = "" if k == 1 else str(k)
+        self.rewrite(s0, s0, "{ let vx_s%s = " % sfx, "R3-try-for-each")
+        self.rewrite(bo + h.start(), bs, ";\n        let mut vx_r%s = Ok(());\n        let mut vx_i%s: usize = 0;/*@pre*/\n        while vx_i%s < vx_s%s.len()\n        /*@loop*/\n        {\n          let %s = &vx_s%s[vx_i%s];/*@body*/\n          let vx_e%s = "
+                     % (sfx, sfx, sfx, sfx, p, sfx, sfx, sfx), "R3-try-for-each")
+        self.rewrite(be, close + 1, ";\n          if vx_e%s.is_err() { vx_r%s = vx_e%s; break; }/*@tail*/\n          vx_i%s = vx_i%s + 1;\n        }\n        vx_r%s }"
+                     % (sfx, sfx, sfx, sfx, sfx, sfx), "R3-try-for-each")
+
     def r3_for_values(self, fn, k):
         self._r3_map_iter(fn, k, "values")
 
